@@ -72,12 +72,14 @@ pub struct C20;
 const K_BLIND: u8 = 1;
 const K_SEED: u8 = 2;
 const K_VALUE: u8 = 3;
+const K_BITS: u8 = 4;
 
 fn kind_name(k: u8) -> &'static str {
     match k {
         K_BLIND => "blinding_factor_or_mask",
         K_SEED => "recovery_seed",
         K_VALUE => "value_u64",
+        K_BITS => "bit_decomposition_of_a_value",
         _ => "?",
     }
 }
@@ -125,6 +127,34 @@ fn life_cycle(sc: &Scenario, st: &mut RunStats) -> Vec<Violation> {
     }
     if let Some(s) = &seed {
         alloc::register(s.as_bytes(), K_SEED);
+    }
+    // the scalar image of the bit decomposition of (value - promise) for the first openings: 4 to 8
+    // consecutive 32-byte scalars, each 0 or 1 (a_L), or 0 or -1 (a_R); only registered when the
+    // window contains both kinds of bit, so that neither a wiped nor a constant buffer can match
+    for j in 0..cfg.m.min(2) {
+        let off = sc.wit.values[j].wrapping_sub(sc.wit.promises[j].unwrap_or(0));
+        let w = cfg.bits.min(8);
+        if w < 4 || sc.wit.promises[j].unwrap_or(0) > sc.wit.values[j] {
+            continue;
+        }
+        let bits: Vec<u64> = (0..w).map(|i| (off >> i) & 1).collect();
+        if bits.iter().all(|b| *b == 0) || bits.iter().all(|b| *b == 1) {
+            continue;
+        }
+        let mut al = Vec::with_capacity(32 * w);
+        let mut ar = Vec::with_capacity(32 * w);
+        for b in &bits {
+            al.extend_from_slice(Scalar::from(*b).as_bytes());
+            ar.extend_from_slice((Scalar::from(*b) - Scalar::ONE).as_bytes());
+        }
+        // a_L image only with at least two 1-bits: "01 00 .. 00" alone is also what a non-adjacent-form
+        // digit table of the scalar one looks like inside the curve library's variable-time MSM
+        if bits.iter().filter(|b| **b == 1).count() >= 2 {
+            alloc::register_long(&al, K_BITS);
+        }
+        // a_R image: contains the 32-byte encoding of -1 wherever the bit is 0, which nothing else produces
+        alloc::register_long(&ar, K_BITS);
+        st.probe("bit_image_registered");
     }
     let mut comp_blind = [[Scalar::ZERO; 6]; 4];
     let mut comp_seed = [Scalar::ZERO; 4];
@@ -596,6 +626,7 @@ impl Check for C20 {
             "value_pattern_registered",
             "freed_blocks_scanned",
             "several_masks_recovered_in_one_batch",
+            "bit_image_registered",
             "error_return_commitment_mismatch",
             "verifier_error_return_with_masks_live",
         ]
